@@ -206,7 +206,11 @@ def main():
         cur = dict(case); cur["history"] = [tuple(o) for o in case["history"]]
         tries = 0
         i = 0
-        while i < len(cur["history"]) and tries < 25 and len(cur["history"]) > 1:
+        t_shrink = time.time()
+        # a history that stalls costs a watchdog period (plus the 3x retry) per attempt: at most two attempts for those, and
+        # two minutes of shrinking in any case
+        budget = 2 if "did not finish" in str(v.get("what", "")) else 25
+        while i < len(cur["history"]) and tries < budget and len(cur["history"]) > 1 and time.time() - t_shrink < 120:
             cand = dict(cur); cand["history"] = cur["history"][:i] + cur["history"][i + 1:]
             tries += 1
             try:
@@ -274,6 +278,7 @@ def main():
             "exhaustive": bool(res.get("exhaustive", False)),
             **res.get("extra", {}),
             "repo_state": repo_state(),
+            "translator_tie": coq.get("translators", {"skipped": "--no-coq"}),
         },
         "assumptions": tb["assumptions"] + res.get("assumptions", []),
         "wall_s": round(time.time() - t0, 2),
